@@ -665,8 +665,17 @@ fn classify(cx: &Ctx, c: &Cmp, kind: &str, row: Option<&[V]>, err: Option<&str>)
     }) {
         return Some("bitwise-rule-treats-arithmetic-negation-as-not");
     }
-    if kind == "null-ness" && expr_has(c.original, |n| matches!(n, Expr::TryCast(_))) && c.tag.starts_with("unwrap-cast") {
+    // TRY_CAST(x AS narrower) <op> literal is unwrapped to x <op> literal: rows on which the TRY_CAST yields NULL change
+    if kind != "data-type" && expr_has(c.original, |n| matches!(n, Expr::TryCast(_))) && !c.simplified_txt.contains("TRY_CAST") {
         return Some("try-cast-narrowing-unwrapped");
+    }
+    if let Some(row) = row {
+        // date_part() returns NULL (not an error) for dates outside chrono's range; its preimage rewrite answers false/true
+        if expr_has(c.original, |n| matches!(n, Expr::ScalarFunction(f) if f.func.name() == "date_part"))
+            && c.refs.iter().any(|&ci| matches!((&env.cols[ci].dt, &row[ci]), (DataType::Date32, V::I(d)) if d.abs() > 90_000_000))
+        {
+            return Some("date-part-null-on-out-of-range-date");
+        }
     }
     if expr_has(c.original, |n| match n {
         Expr::Cast(datafusion_expr::expr::Cast { expr, field }) | Expr::TryCast(datafusion_expr::expr::TryCast { expr, field }) => match (ty(expr), field.data_type()) {
